@@ -104,6 +104,17 @@ def delegation(repo, res):
         seen.add(base)
     ok &= seen == {"self.value", conv}
     res.check(ok, "to_value", fn.where(), "to_value returns the bare value of the same conversion (in_units with the same units, equivalence and keyword arguments)", found=sorted(seen), rid=r1)
+    # the target of a conversion given as a Unit object is used as it is (its own scale, offset and registry): only text
+    # is parsed against the array's registry
+    sz = arr.func("_sanitize_units_convert")
+    res.fn(sz)
+    pu = sz.params[0]
+    ok_s, n_s = True, 0
+    for x in summarise(sz):
+        if x.has(f"isinstance({pu}, Unit)", True):
+            n_s += 1
+            ok_s &= x.kind == "return" and x.value == pu
+    res.check(ok_s and n_s >= 1, "target-unit-object-kept", sz.where(), "a conversion target given as a Unit object must be used unchanged: re-creating it from its expression in the array's registry replaces its scale by whatever that registry says for the same spelling (code units of another dataset)", f"isinstance({pu}, Unit) -> return {pu}", [(sorted(x.facts), x.value) for x in summarise(sz)][:3], rid=r1)
     # copying / in-place twins and aliases take the same parameters with the same defaults (a call that omits an argument
     # must mean the same request on either route)
     def _sig(f_):
@@ -352,9 +363,44 @@ def em_route(repo, res, r4):
     res.check(not [b for b in bad if b[0] == "partner"], "em-route:partner-unit", fn.where(), "the partner unit of a cross-system conversion is the table's partner symbol with the source's SI prefix, and the factor is that row's: without the prefix mT -> G is off by 1000 and mT -> G -> mT does not return", "(target, Unit(prefix + row[1]), row[2])", [b[1] for b in bad if b[0] == "partner"][:2], rid=r4)
 
 
+def em_apply(repo, res, r4):
+    """_em_conversion turns the triple of _check_em_conversion into (target unit, factor): the data are re-expressed as
+    row factor x partner unit, and the target is the triple's own target (the partner unit when the triple names
+    none), re-created in the array's registry; an explicit target of the caller is kept."""
+    from engine.sem import summarise
+
+    fn = repo.mod(UO).func("_em_conversion")
+    res.fn(fn)
+    ou, cd = fn.params[0], fn.params[1]
+    tu = fn.params[2]
+    bad = []
+    n = 0
+    for x in summarise(fn):
+        if x.kind != "return":
+            continue
+        n += 1
+        v = ast.parse(x.value, mode="eval").body
+        if not (isinstance(v, ast.Tuple) and len(v.elts) == 2):
+            raise AnalysisError(f"{fn.where()}: _em_conversion returns something that is not a pair")
+        tgt, conv = norm(v.elts[0]), norm(v.elts[1])
+        newu = f"Unit({cd}[2] * {cd}[1].expr, registry={ou}.registry)"
+        if x.has("unit_system is None", True):
+            want_t = tu
+        elif x.has(f"{cd}[0] is None", True):
+            want_t = f"Unit({cd}[1].expr, registry={ou}.registry)"
+        else:
+            want_t = f"Unit({cd}[0].expr, registry={ou}.registry)"
+        if tgt != want_t or conv != f"{newu}.get_conversion_factor({want_t})":
+            bad.append((sorted(f"{t}={tr}" for t, tr in x.facts), x.value[:140]))
+    if n < 3:
+        raise AnalysisError(f"{fn.where()}: returning paths of _em_conversion not found")
+    res.check(not bad, "em-route:apply", fn.where(), "_em_conversion must convert (row factor x partner unit) into the target named by the triple (its first element; the partner unit when that is None) - built from another element, the unit stays what it was and in_base / get_base_equivalent / convert_to_base leave the unit system", "(Unit(target.expr), Unit(scale * partner.expr).get_conversion_factor(target))", bad[:2], rid=r4)
+
+
 def em_table(repo, res):
     r4 = res.rule("C03-R4", "EM conversion table: closed under reversal with reciprocal factors, pairs em_dimensions partners, factors equal the Gaussian-SI reference", floor=30)
     em_route(repo, res, r4)
+    em_apply(repo, res, r4)
     t = Tables(repo)
     uo = repo.mod(UO)
     node = uo.assign("em_conversions")
